@@ -59,6 +59,16 @@ def mk_type(sp):
         return c12_types.CLASSES[sp[1]]
     if k == "T":
         return tuple[tuple(mk_type(m) for m in sp[1])]
+    if k == "BT":
+        return tuple
+    if k == "BS":
+        return set
+    if k == "TV":
+        return tuple[mk_type(sp[1]), ...]
+    if k == "ANY":
+        return typing.Any
+    if k == "OBJ":
+        return object
     if k == "SET":
         return set[mk_type(sp[1])]
     if k == "LIT":
@@ -91,6 +101,10 @@ def mk_val(sp):
         return [mk_val(x) for x in sp[1]]
     if k == "d":
         return {mk_val(a): mk_val(b) for a, b in sp[1]}
+    if k == "t":
+        return tuple(mk_val(x) for x in sp[1])
+    if k == "set":
+        return {mk_val(x) for x in sp[1]}
     if k == "obj":          # an instance built by unmarshalling a plain dict cold-independently: by the constructor
         import c12_types
         return build_obj(c12_types.CLASSES[sp[1]], mk_val(sp[2]))
@@ -137,6 +151,10 @@ def to_spec(x, depth=0):
         return ["l", [to_spec(y, depth + 1) for y in x]]
     if t is dict:
         return ["d", [[to_spec(a, depth + 1), to_spec(b, depth + 1)] for a, b in x.items()]]
+    if t is tuple:
+        return ["t", [to_spec(y, depth + 1) for y in x]]
+    if t is set:
+        return ["set", sorted((to_spec(y, depth + 1) for y in x), key=json.dumps)]
     return ["o", t.__module__ + "." + t.__qualname__, ascii(repr(x))[:300]]
 
 
@@ -242,15 +260,27 @@ def call_op(op, x):
     raise ValueError(k)
 
 
+def children(x):
+    """the objects held by a builtin container (dict: values; keys are hashable, hence immutable)"""
+    if isinstance(x, dict):
+        return list(x.values())
+    if isinstance(x, (set, frozenset)):
+        return sorted(x, key=repr)
+    return list(x)
+
+
+WALKED = (list, dict, tuple, set, frozenset)
+MUTABLE = (list, dict, set)
+
+
 def navigate(obj, path):
+    """follows child indexes through lists, dicts, tuples and sets; the target must be a mutable container"""
     for i in path:
-        if isinstance(obj, list) and i < len(obj):
-            obj = obj[i]
-        elif isinstance(obj, dict) and i < len(obj):
-            obj = list(obj.values())[i]
+        if type(obj) in WALKED and i < len(obj):
+            obj = children(obj)[i]
         else:
             return None
-    return obj if type(obj) in (list, dict) else None
+    return obj if type(obj) in MUTABLE else None
 
 
 def do_mutate(obj):
@@ -258,22 +288,28 @@ def do_mutate(obj):
         obj.append(MARK)
     elif isinstance(obj, dict):
         obj[ZZ] = MARK
+    elif isinstance(obj, set):
+        obj.add(MARK)
 
 
-def containers(x, acc=None, depth=0):
+def containers(x, acc=None, depth=0, seen=None):
+    """id -> object of every mutable builtin container reachable from x (tuples and frozensets are walked through)"""
     acc = {} if acc is None else acc
-    if type(x) in (list, dict) and id(x) not in acc and depth < 20:
-        acc[id(x)] = x
-        for y in (x if isinstance(x, list) else list(x.values())):
-            containers(y, acc, depth + 1)
+    seen = set() if seen is None else seen
+    if type(x) in WALKED and id(x) not in seen and depth < 20:
+        seen.add(id(x))
+        if type(x) in MUTABLE:
+            acc[id(x)] = x
+        for y in children(x):
+            containers(y, acc, depth + 1, seen)
     return acc
 
 
 def texts_in(x, acc, depth=0):
     if isinstance(x, (str, bytes)):
         acc.add(x)
-    elif type(x) in (list, dict) and depth < 20:
-        for y in (x if isinstance(x, list) else list(x.values()) + list(x.keys())):
+    elif type(x) in WALKED and depth < 20:
+        for y in children(x) + (list(x.keys()) if isinstance(x, dict) else []):
             texts_in(y, acc, depth + 1)
 
 
@@ -359,8 +395,8 @@ def run_history(ops, stop_before=None):
 def temporals_in(x, acc, depth=0):
     if isinstance(x, (datetime.date, datetime.time, datetime.timedelta)):
         acc.append(x)
-    elif type(x) in (list, dict) and depth < 20:
-        for y in (x if isinstance(x, list) else list(x.values())):
+    elif type(x) in WALKED and depth < 20:
+        for y in children(x):
             temporals_in(y, acc, depth + 1)
 
 
